@@ -249,7 +249,7 @@ class KaniSession:
             raise Undecided("kani: timeout after %ds" % timeout)
         if "error: could not compile" in err or "error[E" in err or re.search(r"^error: ", err, re.M) and "Checking harness" not in out:
             err = re.sub(r"\x1b\[[0-9;]*m", "", err)
-            errs = re.findall(r"^error(?:\[E\d+\])?: .*(?:\n(?!error|warning).*){0,12}", err, re.M)
+            errs = re.findall(r"^\s*error(?:\[E\d+\])?: .*(?:\n(?!\s*error|\s*warning).*){0,12}", err, re.M)
             errs = [e for e in errs if "could not compile" not in e] + [e for e in errs if "could not compile" in e]
             raise Undecided("kani: build error in scratch copy:\n" + "\n".join(errs[:6])[:4000])
         res = parse_kani_terse(out)
